@@ -348,7 +348,29 @@ def run(jobname, job, prop, tier, seed, wd, acc):
                                "case": {"t": "trace", "prog": prog and prog["prog"], "query": prog and prog["query"], "trace_file": trace, "line": at},
                                "obs": {"prop": "C10", "kind": "trace-ids",
                                        "detail": "a clause was renamed in the middle of a search with fewer fresh ids than it has variable names: %s (%s)" % (ev[:200], line[:200])}})
-    mine = [pg for pg in progs if relevant(prop, pg["prog"]) and pg.get("run") not in rejected_runs]
+    if prop == "C22":
+        # All runs are recorded in ONE process, one after the other, each query built with make_query(): every run
+        # but the first has a history.  A run which the specification rejects there but accepts when the same program
+        # and query are recorded alone, as the first query of a fresh process, depended on the queries before it.
+        seen = 0
+        for line in list(res["rejections"]) + list(res.get("ids", [])):
+            m = re.search(r"at \|-> (\d+)", line); at = int(m.group(1)) if m else 0
+            prog = None
+            for i in range(min(at, len(lines)) - 1, -1, -1):
+                if lines[i].startswith('{"e":"program"'):
+                    prog = json.loads(lines[i]); break
+            if prog is None or not prog.get("run") or seen >= 12:
+                continue
+            seen += 1
+            case = {"t": "trace", "prog": prog["prog"], "query": prog["query"], "family": prog.get("family"), "trace_file": trace, "line": at, "history": True, "seed": seed, "run": prog.get("run")}
+            alone = replay(case, os.path.join(wd, "alone-%d" % seen))
+            if not alone:
+                ev = lines[at - 1] if 0 < at <= len(lines) else "end of trace"
+                acc["bad"].append({"job": jobname, "case": case,
+                                   "obs": {"prop": "C22", "kind": "trace-history-dependent",
+                                           "detail": "run %s of the recording (after %s earlier queries in the same process) is not a behaviour of Solver.tla -- at trace line %d the engine logged %s -- "
+                                                     "but the same program and query recorded alone in a fresh process is accepted" % (prog.get("run"), prog.get("run"), at, ev[:200])}})
+    mine = [pg for pg in progs if (relevant(prop, pg["prog"]) or (prop == "C22" and pg.get("run"))) and pg.get("run") not in rejected_runs]
     acc["evaluations"] += len(mine)
     acc["kinds"]["%s:trace-accepted" % prop] += len(mine)
     fams = {}
@@ -380,6 +402,31 @@ def replay(case, wd):
     for l in res.get("ids", []):
         m = re.search(r"at \|-> (\d+)", l)
         out.append({"at": int(m.group(1)) if m else 0, "model": "ids: " + l[:200]})
+    return out
+
+
+def replay_history(case, wd):
+    """A run that was rejected after the earlier runs of its recording but accepted alone: record the
+    same sequence of runs again (same seed, up to and including that run) and look at it once more."""
+    os.makedirs(wd, exist_ok=True)
+    trace = os.path.join(wd, "trace.ndjson")
+    n = int(case["run"]) + 1
+    p = subprocess.run([vcheck.HARNESS_BIN, "gen-trace", trace, str(case["seed"]), str(n)], cwd=wd, stdout=subprocess.PIPE, stderr=subprocess.PIPE, text=True)
+    if p.returncode != 0:
+        raise vcheck.ToolError("gen-trace failed: %s" % p.stderr[-1000:])
+    lines = open(trace).read().split("\n")
+    res = validate(trace, wd, 1800)
+    if res["violated"] or "validated" not in res:
+        raise vcheck.ToolError("trace validation of the replay ended without a verdict (%s)" % res["out"])
+    out = []
+    for l in list(res["rejections"]) + list(res.get("ids", [])):
+        m = re.search(r"at \|-> (\d+)", l); at = int(m.group(1)) if m else 0
+        prog = None
+        for i in range(min(at, len(lines)) - 1, -1, -1):
+            if lines[i].startswith('{"e":"program"'):
+                prog = json.loads(lines[i]); break
+        if prog is not None and prog.get("run") == case["run"] and not replay(case, os.path.join(wd, "alone")):
+            out.append({"at": at, "model": "rejected after %d earlier queries in the same process, accepted alone" % case["run"]})
     return out
 
 
